@@ -210,6 +210,11 @@ def check_encode(rule: dict) -> dict:
     except Notify as exc:
         if want_value is not None and len(want_value) > 4095:
             return {'nontrivial': True, 'classes': classes + ['too-long:refused']}
+        if want_value is not None and len(want_value) < 4095:
+            # the whole-prefix layout of an IPv6 prefix with an offset is longer than the RFC one: the refusal is that deviation again
+            grown = sum((w[4] + 7) // 8 - (w[4] - w[2] + 7) // 8 for _, w in expected if isinstance(w, tuple) and afi == 2)
+            if grown and len(want_value) + grown >= 4095:
+                raise Violation('encode:ipv6-offset-pattern', f'{len(want_value)} octets per RFC 8956 grow by {grown} with the whole prefix behind <length, offset>, then refused: {exc}') from None
         if want_value is not None and len(want_value) == 4095:
             raise Violation('encode:length-4095-refused', f'a rule of exactly 4095 octets is refused: {exc}') from None
         raise Violation(exception_signature('encode:pack', exc), f'{exc!r} for "{text[:300]}"') from exc
